@@ -334,6 +334,11 @@ func NewMux(opts ...MuxOption) (*Mux, error) {
 		muxOpts.codecsByName[v.Name()] = v
 	}
 	for k := range muxOpts.codecs {
+		if !strings.Contains(k, "/") {
+			// Codecs keyed by a message name (google.api.HttpBody) are not
+			// media types and must not be offered to Accept negotiation.
+			continue
+		}
 		muxOpts.contentTypeOffers = append(muxOpts.contentTypeOffers, k)
 	}
 	sort.Strings(muxOpts.contentTypeOffers)
